@@ -146,6 +146,8 @@ ORDER = ['C%02d' % i for i in range(1, 19)]
 
 # whole-function theorems against Spec/* (a transcription of FIPS 204 that mentions nothing of the crate); appended to the claim text
 LITERAL = {
+ 'C11': "Literal specification (Props/C11c): derived_public_key_bytes_are_the_standards - whenever Spec.keyGenInternal(xi) = (pk, sk), deserialising sk succeeds, private_to_public_key succeeds and the derived key serialises to exactly pk.",
+ 'C07': "Literal specification (Props/C02d, C03e): the four entry points equal Spec.verify / hashVerify / sign / hashSign (Algorithms 2-5 as written) for every context length; these are executed on every run at the lengths around the limit against the crate.",
  'C01': "Literal specification (Props/C01d): fips_204_signatures_verify_as_written - carried through the crate by the three whole-function theorems, the round trip holds of the transcription of the standard itself: "
         "whenever Spec.keyGenInternal(xi) = (pk, sk) and Spec.signInternal(skDecode sk, M', rnd) = sigma, Spec.verifyInternal(pk, M', sigma) = true, for every seed, formatted message, rnd and oracle pair with SHAKE's prefix property.",
  'C02': "Literal specification (Props/C02c): verification_is_fips_204_algorithm_8_as_written - from the public-key bytes and the signature bytes, expand_public + verify_internal return exactly the Boolean of Spec.verifyInternal "
